@@ -228,12 +228,19 @@ func (cs *Contracts) loadFile(path, pkgPath, pkgName string) error {
 				}
 				cur.Params, cur.Results = params, results
 			}
-			for _, n := range strings.Split(names, ",") {
+			nameList := strings.Split(names, ",")
+			if strings.HasPrefix(strings.TrimSpace(names), "type:") {
+				nameList = []string{names} // a function type: its commas are not separators
+			}
+			for _, n := range nameList {
 				n = strings.TrimSpace(n)
 				if n == "" {
 					continue
 				}
 				key := qualifyFuncKey(n, pkgName)
+				if n == "init" && pkgPath != "" {
+					key = pkgPath + ".init" // package names repeat (header, header): the initialiser is keyed by path
+				}
 				cur.Names = append(cur.Names, key)
 				if old, ok := cs.ByName[key]; ok {
 					return fmt.Errorf("%s:%d: duplicate contract for %s (first at %s:%d)", path, ln, key, old.File, old.Line)
